@@ -778,6 +778,35 @@ theorem frame_reads (p : List Step) (hs : safe p [] = true) (h : Heap) (env : En
 
 example : ∃ s2, run (strToInt (fun a => a.headD [])) { heap := [⟨[45, 49], true⟩, ⟨[2], true⟩, ⟨[48, 49], true⟩, ⟨[48, 49], true⟩], env := [some ⟨0, [0, 1]⟩, some ⟨1, [0]⟩] } = some s2 := ⟨_, rfl⟩
 
+/-! ### calls that raise -/
+
+theorem runUntil_inv (h0 : Heap) (p : List Step) : ∀ (fresh : List Nat) (s : State),
+    safe p fresh = true → Inv h0 fresh s → (runUntil p s).heap.take h0.length = h0 := by
+  induction p with
+  | nil => intro fresh s _ inv; exact inv.pre
+  | cons st p ih =>
+    intro fresh s hs inv
+    simp only [runUntil]
+    cases hst : step s st with
+    | none => exact inv.pre
+    | some s1 =>
+      obtain ⟨hs', inv'⟩ := step_inv_fresh h0 st p fresh s s1 hs inv hst
+      exact ih _ s1 hs' inv'
+
+/-- **also on the error path**: wherever a routine that writes only into its own buffers stops — at its end or at a step
+that raises — every buffer that existed before the call is unchanged. A call that raises leaves its arguments alone. -/
+theorem frame_on_error (p : List Step) (hs : safe p [] = true) (h : Heap) (env : Env) :
+    (runUntil p { heap := h, env := env }).heap.take h.length = h :=
+  runUntil_inv h p [] _ hs ⟨by simp, Nat.le_refl _, by intro v hv; cases hv⟩
+
+/-- a routine that checks its precondition only AFTER writing the caller's array leaves the damage behind when it raises:
+clip the stops into the argument, then fail on a read-only second argument -/
+theorem writeThenRaise_unsound :
+    let p : List Step := [.view 2 0 (fun c => List.range c.length), .write 2 [] (fun c _ => c.map (fun x => min x 20)), .write 1 [] (fun c _ => c)]
+    run p { heap := [⟨[8, 7, 25], true⟩, ⟨[0], false⟩], env := [some ⟨0, [0, 1, 2]⟩, some ⟨1, [0]⟩] } = none ∧
+    (runUntil p { heap := [⟨[8, 7, 25], true⟩, ⟨[0], false⟩], env := [some ⟨0, [0, 1, 2]⟩, some ⟨1, [0]⟩] }).heap
+      = [⟨[8, 7, 20], true⟩, ⟨[0], false⟩] := by decide
+
 /-! ### results are fresh; what a chunk writes is unchanged (corollaries) -/
 
 /-- the variables the static check knows to live in buffers allocated by the routine, after the whole program -/
